@@ -215,6 +215,11 @@ def maybe_tcp(rng, scn: dict, share: float = 0.2) -> dict:
         return scn
     if any(op and op[0] == "readerr" for op in scn.get("ops", [])):
         return scn
+    for op in scn.get("ops", []):
+        # on a byte stream one read is one newline-terminated line: texts that hold no or several line
+        # terminators only make sense on the injected line-level transport
+        if op and op[0] == "line" and not (op[1].count("\n") == 1 and op[1].endswith("\n")):
+            return scn
     if rng.random() < share:
         scn.setdefault("cfg", {})["link"] = "tcp"
         scn["tapes"] = dict(tapes, **{"link.chunk": [rng.choice([0, 0, 1, 3, 7]) for _ in range(rng.randint(0, 10))]})
